@@ -47,4 +47,16 @@ def argmaxFl (l : List Fl) : Nat :=
 def argKernel (isMax : Bool) (disps : List Rat) (a : Arr (List Fl)) : Nat → Nat → Val :=
   fun r c => .num (Wta.dispAt disps (if isMax then argmaxFl (a r c) else argminFl (a r c)))
 
+/-- the dataset `to_disp` returns, as array identities in the four stores (cost volumes, maps, confidence bands,
+    flags) together with the stores after the call; `disp_indices` is the map saved into the cost-volume dataset -/
+structure DispDataset where
+  cvs : Store (List Fl)
+  maps : Store Val
+  bands : Store (List Val)
+  flags : Store Nat
+  disparity_map : Nat
+  disp_indices : Nat
+  confidence_measure : Option Nat
+  validity_mask : Nat
+
 end Pandora.PyArr
